@@ -43,6 +43,50 @@ MUTANTS = [
     (C, '::kron', '            if sp.isspmatrix_coo(X):\n                X = X.tocsr()\n            X = X[di', '            X = X[di', 'expect-fail'),
     (C, '::kron', 'sliced_ops = list(gen_ops_maybe_sliced(ops, matching_dyn))', 'sliced_ops = list(gen_ops_maybe_sliced(ops, matching_dyn[:-1]))', 'expect-fail'),
     (C, '::kron', '            ri_got, rf_got = 0, D', '            ri_got, rf_got = 0, D - 1', 'benign'),  # dead for K >= 1
+    # ---- _dim_map_1d
+    (C, '::_dim_map_1d', "def _dim_map_1d(sza, coos):\n    for coo in coos:\n        if 0 <= coo < sza:", "def _dim_map_1d(sza, coos):\n    for coo in coos:\n        if 0 <= coo <= sza:", 'expect-fail'),
+    (C, '::_dim_map_1d', "def _dim_map_1d(sza, coos):\n    for coo in coos:\n        if 0 <= coo < sza:", "def _dim_map_1d(sza, coos):\n    for coo in coos:\n        if 0 < coo < sza:", 'expect-fail'),
+    (C, '::_dim_map_1d', "        if 0 <= coo < sza:\n            yield coo\n        else:\n            raise ValueError", "        if 0 <= coo < sza:\n            yield coo + 1\n        else:\n            raise ValueError", 'expect-fail'),
+    (C, '::_dim_map_1d', "        if 0 <= coo < sza:\n            yield coo\n        else:\n            raise ValueError(\"One or more coordinates out of range.\")", "        if 0 <= coo < sza:\n            yield coo\n        else:\n            continue", 'expect-fail'),
+    (C, '::_dim_map_1d', "        if 0 <= coo < sza:\n            yield coo\n        else:\n            raise ValueError(\"One or more coordinates out of range.\")", "        if 0 <= coo < sza:\n            yield coo\n        else:\n            yield coo % sza", 'expect-fail'),
+    # ---- _dim_map_1dtrim
+    (C, '::_dim_map_1dtrim', "return (coo for coo in coos if (0 <= coo < sza))", "return (coo for coo in coos if (0 <= coo <= sza))", 'expect-fail'),
+    (C, '::_dim_map_1dtrim', "return (coo for coo in coos if (0 <= coo < sza))", "return (coo for coo in coos if (0 < coo < sza))", 'expect-fail'),
+    (C, '::_dim_map_1dtrim', "return (coo for coo in coos if (0 <= coo < sza))", "return (coo for coo in coos)", 'expect-fail'),
+    (C, '::_dim_map_1dtrim', "return (coo for coo in coos if (0 <= coo < sza))", "return (coo for coo in coos[1:] if (0 <= coo < sza))", 'expect-fail'),
+    (C, '::_dim_map_1dtrim', "return (coo for coo in coos if (0 <= coo < sza))", "return (coo for coo in reversed(coos) if (0 <= coo < sza))", 'expect-fail'),
+    # ---- _dim_map_1dcyclic
+    (C, '::_dim_map_1dcyclic', "return (coo % sza for coo in coos)", "return (coo for coo in coos)", 'expect-fail'),
+    (C, '::_dim_map_1dcyclic', "return (coo % sza for coo in coos)", "return (coo % (sza + 1) for coo in coos)", 'expect-fail'),
+    (C, '::_dim_map_1dcyclic', "return (coo % sza for coo in coos)", "return (coo // sza for coo in coos)", 'expect-fail'),
+    (C, '::_dim_map_1dcyclic', "return (coo % sza for coo in coos)", "return (abs(coo) % sza for coo in coos)", 'expect-fail'),
+    # ---- _dim_map_2dcyclic
+    (C, '::_dim_map_2dcyclic', "return (szb * (coo[0] % sza) + coo[1] % szb for coo in coos)", "return (sza * (coo[0] % sza) + coo[1] % szb for coo in coos)", 'expect-fail'),
+    (C, '::_dim_map_2dcyclic', "return (szb * (coo[0] % sza) + coo[1] % szb for coo in coos)", "return (szb * (coo[0] % szb) + coo[1] % szb for coo in coos)", 'expect-fail'),
+    (C, '::_dim_map_2dcyclic', "return (szb * (coo[0] % sza) + coo[1] % szb for coo in coos)", "return (szb * (coo[0] % sza) + coo[1] for coo in coos)", 'expect-fail'),
+    (C, '::_dim_map_2dcyclic', "return (szb * (coo[0] % sza) + coo[1] % szb for coo in coos)", "return (szb * (coo[1] % sza) + coo[0] % szb for coo in coos)", 'expect-fail'),
+    # ---- _dim_map_2dtrim
+    (C, '::_dim_map_2dtrim', "def _dim_map_2dtrim(sza, szb, coos):\n    for coo in coos:\n        x, y = coo\n        if 0 <= x < sza and 0 <= y < szb:\n            yield szb * x + y", "def _dim_map_2dtrim(sza, szb, coos):\n    for coo in coos:\n        x, y = coo\n        if 0 <= x < sza and 0 <= y <= szb:\n            yield szb * x + y", 'expect-fail'),
+    (C, '::_dim_map_2dtrim', "def _dim_map_2dtrim(sza, szb, coos):\n    for coo in coos:\n        x, y = coo\n        if 0 <= x < sza and 0 <= y < szb:\n            yield szb * x + y", "def _dim_map_2dtrim(sza, szb, coos):\n    for coo in coos:\n        x, y = coo\n        if 0 <= x < sza and 0 <= y < szb:\n            yield sza * x + y", 'expect-fail'),
+    (C, '::_dim_map_2dtrim', "def _dim_map_2dtrim(sza, szb, coos):\n    for coo in coos:\n        x, y = coo\n        if 0 <= x < sza and 0 <= y < szb:", "def _dim_map_2dtrim(sza, szb, coos):\n    for coo in coos:\n        x, y = coo\n        if 0 <= x < sza or 0 <= y < szb:", 'expect-fail'),
+    (C, '::_dim_map_2dtrim', "def _dim_map_2dtrim(sza, szb, coos):\n    for coo in coos:\n        x, y = coo\n        if 0 <= x < sza and 0 <= y < szb:", "def _dim_map_2dtrim(sza, szb, coos):\n    for coo in coos:\n        x, y = coo\n        if 0 <= x < szb and 0 <= y < sza:", 'expect-fail'),
+    (C, '::_dim_map_2dtrim', "def _dim_map_2dtrim(sza, szb, coos):\n    for coo in coos:\n        x, y = coo\n", "def _dim_map_2dtrim(sza, szb, coos):\n    for coo in coos:\n        y, x = coo\n", 'expect-fail'),
+    # ---- _dim_map_2d
+    (C, '::_dim_map_2d', "def _dim_map_2d(sza, szb, coos):\n    for coo in coos:\n        x, y = coo\n        if 0 <= x < sza and 0 <= y < szb:\n            yield szb * x + y", "def _dim_map_2d(sza, szb, coos):\n    for coo in coos:\n        x, y = coo\n        if 0 <= x < sza and 0 <= y < szb:\n            yield sza * x + y", 'expect-fail'),
+    (C, '::_dim_map_2d', "def _dim_map_2d(sza, szb, coos):\n    for coo in coos:\n        x, y = coo\n        if 0 <= x < sza and 0 <= y < szb:\n            yield szb * x + y", "def _dim_map_2d(sza, szb, coos):\n    for coo in coos:\n        x, y = coo\n        if 0 <= x < sza and 0 <= y < szb:\n            yield szb * y + x", 'expect-fail'),
+    (C, '::_dim_map_2d', "def _dim_map_2d(sza, szb, coos):\n    for coo in coos:\n        x, y = coo\n        if 0 <= x < sza and 0 <= y < szb:", "def _dim_map_2d(sza, szb, coos):\n    for coo in coos:\n        x, y = coo\n        if 0 <= x <= sza and 0 <= y < szb:", 'expect-fail'),
+    (C, '::_dim_map_2d', "def _dim_map_2d(sza, szb, coos):\n    for coo in coos:\n        x, y = coo\n        if 0 <= x < sza and 0 <= y < szb:", "def _dim_map_2d(sza, szb, coos):\n    for coo in coos:\n        x, y = coo\n        if 0 <= x < sza and -1 <= y < szb:", 'expect-fail'),
+    (C, '::_dim_map_2d', "            yield szb * x + y\n        else:\n            raise ValueError", "            yield szb * x + y\n        elif x < 0:\n            raise ValueError", 'expect-fail'),
+    # ---- _dim_map_nd
+    (C, '::_dim_map_nd', "for sz in szs[-1:0:-1]:", "for sz in szs[-1::-1]:", 'expect-fail'),
+    (C, '::_dim_map_nd', "for sz in szs[-1:0:-1]:", "for sz in szs[-2::-1]:", 'expect-fail'),
+    (C, '::_dim_map_nd', "strides.insert(0, sz * strides[0])", "strides.insert(0, sz * strides[-1])", 'expect-fail'),
+    (C, '::_dim_map_nd', "strides.insert(0, sz * strides[0])", "strides.append(sz * strides[0])", 'expect-fail'),
+    (C, '::_dim_map_nd', "    if cyclic:\n        coos = ((c % sz", "    if cyclic and not trim:\n        coos = ((c % sz", 'expect-fail'),
+    (C, '::_dim_map_nd', "coos = (c for c in coos if all(x == x % sz for x, sz in zip(c, szs)))", "coos = (c for c in coos if any(x == x % sz for x, sz in zip(c, szs)))", 'expect-fail'),
+    (C, '::_dim_map_nd', "elif not all(all(c == c % sz for c, sz in zip(coo, szs)) for coo in coos):", "elif not any(all(c == c % sz for c, sz in zip(coo, szs)) for coo in coos):", 'expect-fail'),
+    (C, '::_dim_map_nd', "return (sum(c * m for c, m in zip(coo, strides)) for coo in coos)", "return (sum(c * m for c, m in zip(coo, strides[::-1])) for coo in coos)", 'expect-fail'),
+    (C, '::_dim_map_nd', "coos = ((c % sz for c, sz in zip(coo, szs)) for coo in coos)", "coos = ((c % sz for c, sz in zip(coo, szs[::-1])) for coo in coos)", 'expect-fail'),
 ]
 
 _BASELINE = {}
